@@ -139,7 +139,7 @@ FASTOR_INLINE typename Derived::scalar_type max(const AbstractTensor<Derived,DIM
     using T = typename Derived::scalar_type;
     using V = typename Derived::simd_vector_type;
     FASTOR_INDEX i;
-    T _scal=std::numeric_limits<T>::min(); V _vec(_scal);
+    T _scal=std::numeric_limits<T>::lowest(); V _vec(_scal);
     for (i = 0; i < ROUND_DOWN(src.size(),V::Size); i+=V::Size) {
         _vec = max(src.template eval<T>(i),_vec);
     }
